@@ -828,11 +828,13 @@ def table : ExpOp → St → Option Outcome
 /-- `${s:off:len}` in bash: characters; a negative offset counts from the end (beyond the start:
     empty result); a negative length is an end position counted from the end of the string, an
     error (`none`) when it lies before the start. -/
+def startOf (n : Int) : Option Int → Int
+  | none => 0
+  | some o => if o ≥ 0 then min o n else if n + o ≥ 0 then n + o else n
+
 def substring (s : Str) (off : Option Int) (len : Option Int) : Option Str :=
   let n : Int := s.length
-  let start : Int := match off with
-    | none => 0
-    | some o => if o ≥ 0 then min o n else if n + o ≥ 0 then n + o else n
+  let start : Int := startOf n off
   let rest := s.drop start.toNat
   match len with
   | none => some rest
